@@ -409,15 +409,19 @@ package server
 
 // Subscribe: an older epoch is refused with table and active subscription untouched; otherwise the
 // previous member is cancelled before the new loop starts, and the new loop's subscription is registered.
-//@ func (*partition).Subscribe serves C13
+//@ func (*partition).Subscribe serves C13, C03, C11
 //@   returns (sub, st)
 //@   requires p != nil && req != nil
 //@   ghost after call Close: ghost.active[p][groupID] := (ghost.active[p][groupID] == arg0.closed ? nil : ghost.active[p][groupID])
 //@   ghost after call startGoroutine: ghost.active[p][groupID] := cancel if groupID != ""
 //@   ghost after call startGoroutine: ghost.activeEpoch[p][groupID] := groupEpoch if groupID != ""
-//@   call Close requires [active-epoch-not-newer] ghost.active[p][groupID] == nil || ghost.activeEpoch[p][groupID] <= groupEpoch
-//@   call startGoroutine requires [previous-cancelled-first] groupID == "" || ghost.active[p][groupID] == nil
-//@   call Close requires [only-with-newer-or-equal-epoch] arg0 == p.consumers[groupID].sub && p.consumers[groupID].groupEpoch <= groupEpoch
+//@   call Close requires [C13:active-epoch-not-newer] ghost.active[p][groupID] == nil || ghost.activeEpoch[p][groupID] <= groupEpoch
+//@   call startGoroutine requires [C13:previous-cancelled-first] groupID == "" || ghost.active[p][groupID] == nil
+//@   call Close requires [C13:only-with-newer-or-equal-epoch] arg0 == p.consumers[groupID].sub && p.consumers[groupID].groupEpoch <= groupEpoch
+// (C03, C11) a subscriber - forwards or backwards, the cursor manager's scan included - reads committed data only
+//@   call NewReader requires [C03:subscribers-read-committed-data-only] !arg2
+//@   call NewReverseReader requires [C03:subscribers-read-committed-data-only] !arg2
+//@   call NewReverseReader requires [C11:the-cursor-scan-reads-committed-data-only] !arg2
 
 // removeGroupSubscriber is run by an ending subscription loop, identified by its cancel channel:
 // it may only remove the table entry that belongs to that very subscription.
